@@ -76,6 +76,31 @@ def one(src):
         ev["res"] = ab.dfa(D)
         ev["q0cands"] = label_candidates(D.q0, N.Q)
     yield ev
+    if exc != "none" or src.get("again"):
+        return
+    # history: the first result belongs to the caller (it is changed in place), then the SAME NFA object is
+    # converted again; after that the NFA itself is edited in place and converted a third time
+    D.F.clear()
+    D.Q.add("clobbered")
+    for k in list(D.delta)[:2]:
+        D.delta[k] = "clobbered"
+    D2, exc2 = guarded(lambda: nfa_to_dfa(N))
+    ev2 = {"op": "nfa_to_dfa", "fa": pre, "exc": exc2, "src": dict(src, again=1), "post": ab.nfa(N)}
+    if exc2 == "none":
+        ev2["res"] = ab.dfa(D2)
+        ev2["q0cands"] = label_candidates(D2.q0, N.Q)
+    yield ev2
+    keys = sorted(k for k, v in N.delta.items() if v)
+    if keys:
+        k = keys[len(keys) // 2]
+        N.delta[k] = set(N.delta[k]) ^ {sorted(N.Q)[0]} or {sorted(N.Q)[-1]}
+        pre3 = ab.nfa(N)
+        D3, exc3 = guarded(lambda: nfa_to_dfa(N))
+        ev3 = {"op": "nfa_to_dfa", "fa": pre3, "exc": exc3, "src": dict(src, again=2), "post": ab.nfa(N)}
+        if exc3 == "none":
+            ev3["res"] = ab.dfa(D3)
+            ev3["q0cands"] = label_candidates(D3.q0, N.Q)
+        yield ev3
 
 
 def drive(task):
@@ -83,7 +108,12 @@ def drive(task):
         yield from one(src)
 
 
-redrive = one
+def redrive(src):
+    want = src.get("again", 0)
+    for e in one({k: v for k, v in src.items() if k != "again"}):
+        if e["src"].get("again", 0) == want:
+            yield e
+
 
 MODELS = {
     "quick": [("Subset", "Subset_q.cfg", "all NFA(2,{a,b}) with eps, LIFO worklist, all symbol orders")],
